@@ -130,6 +130,9 @@ func init() {
 			p.makeCap = int(termInt64(a[0].(*Term)))
 			return nil
 		},
+		rtPkg + ".SizedBlob": func(p *Path, _ *ssa.Function, a []Value) Value {
+			return Slice{sizedBlob{a[0].(*Term)}}
+		},
 		rtPkg + ".Observe": func(p *Path, _ *ssa.Function, a []Value) Value {
 			return nil
 		},
@@ -473,3 +476,6 @@ func (p *Path) blobEqual(x, y Value) *Term {
 	}
 	return p.tb.False
 }
+
+// sizedBlob: a byte string of symbolic length whose content is never read.
+type sizedBlob struct{ n *Term }
